@@ -31,7 +31,7 @@ import numpy as np
 
 from . import env, gen
 
-ENGINES = ("bomd", "langevin", "xl", "xl_damped", "ksa", "cis_bomd", "cis_xl", "fssh", "fssh_damped")
+ENGINES = ("bomd", "langevin", "xl", "xl_damped", "ksa", "ksa_damped", "cis_bomd", "cis_xl", "fssh", "fssh_damped")
 H5_STREAMS = ("data", "coordinates", "velocities", "forces", "nonadiabatic")
 ALL_STREAMS = ("data", "coordinates", "velocities", "forces", "xyz", "nonadiabatic", "print", "checkpoint")
 EXIT_CRASH = 137      # os._exit at an injected crash point
@@ -125,8 +125,8 @@ def build(cfg):
         md = MD.XL_BOMD(damp=None, xl_bomd_params={"k": int(cfg["k"])}, **common)
     elif eng == "xl_damped":
         md = MD.XL_BOMD(damp=float(cfg["damp"]), xl_bomd_params={"k": int(cfg["k"])}, **common)
-    elif eng == "ksa":
-        md = MD.KSA_XL_BOMD(damp=None, xl_bomd_params={"k": int(cfg["k"]), "max_rank": int(cfg.get("max_rank", 3)),
+    elif eng in ("ksa", "ksa_damped"):
+        md = MD.KSA_XL_BOMD(damp=(float(cfg["damp"]) if eng == "ksa_damped" else None), xl_bomd_params={"k": int(cfg["k"]), "max_rank": int(cfg.get("max_rank", 3)),
                                                        "err_threshold": 0.0, "T_el": float(cfg.get("T_el", 1500))},
                             **common)
     elif eng in ("fssh", "fssh_damped"):
@@ -194,7 +194,7 @@ class Instrument:
             raise SimulatedCrash("injected at %s #%d %s" % (target, n, phase))
         os._exit(EXIT_CRASH)
 
-    def wrap(self, owner, attr, target, info=None, post=None):
+    def wrap(self, owner, attr, target, info=None, post=None, always_log=False):
         try:
             raw = owner.__dict__[attr] if isinstance(owner, type) else getattr(owner, attr)
         except (KeyError, AttributeError):
@@ -218,7 +218,7 @@ class Instrument:
                         extra = info(a, k) or {}
                     except Exception as exc:  # never let a monitor break the run
                         extra = {"info_error": repr(exc)}
-                if ins.log_calls:
+                if ins.log_calls or always_log:
                     ins.log(dict({"ev": "call", "t": target, "n": n, "ph": "before"}, **extra))
                 ins._maybe_crash(target, n, "before")
                 res = orig(*a, **k)
@@ -228,7 +228,7 @@ class Instrument:
                         extra2 = post(a, k, res) or {}
                     except Exception as exc:
                         extra2 = {"post_error": repr(exc)}
-                if ins.log_calls:
+                if ins.log_calls or always_log:
                     ins.log(dict({"ev": "call", "t": target, "n": n, "ph": "after"}, **extra, **extra2))
                 ins._maybe_crash(target, n, "after")
                 return res
@@ -284,7 +284,8 @@ class Instrument:
             if "_do_integrator_step" in cls.__dict__:
                 self.wrap(cls, "_do_integrator_step", "step", info=lambda a, k: {"i": int(a[1])})
             if "save_checkpoint" in cls.__dict__:
-                self.wrap(cls, "save_checkpoint", "save_checkpoint",
+                # always logged (also in strace children): "a checkpoint had been published" is part of the oracle
+                self.wrap(cls, "save_checkpoint", "save_checkpoint", always_log=True,
                           info=lambda a, k: {"step_done": int(k.get("step_done", -1)), "steps": int(a[2])})
         self.wrap(MD.HDF5Writer, "append_data", "h5.append_data", info=pre_append, post=post_append)
         self.wrap(MD.HDF5Writer, "append_vectors", "h5.append_vectors", info=pre_append, post=post_append)
@@ -298,14 +299,23 @@ class Instrument:
         self.wrap(MD.Molecular_Dynamics_Basic, "_flush_all", "flush_all")
         self.wrap(MD.Molecular_Dynamics_Basic, "_atomic_save_checkpoint", "atomic_save")
         self.wrap(torch, "save", "torch.save")
-        self.wrap(os, "replace", "os.replace")
+        def path_info(a, k):
+            return {"path": str(a[0])[-48:]} if a else {}
+        import shutil
+        self.wrap(os, "replace", "os.replace", info=path_info)
+        # every other way a file can be renamed / removed while a checkpoint is being published
+        self.wrap(os, "rename", "os.rename", info=path_info)
+        self.wrap(os, "remove", "os.remove", info=path_info)
+        self.wrap(os, "unlink", "os.unlink", info=path_info)
+        self.wrap(shutil, "move", "shutil.move", info=path_info)
         if self.missing:
             self.log({"ev": "missing_symbols", "names": self.missing})
 
 
 CRASH_TARGETS = ("step", "h5.append_data", "h5.append_vectors", "h5.append_nonadiabatic", "h5.flush", "h5file.flush",
                  "h5.close", "xyz.write", "xyz.flush", "xyz.close", "flush_all", "save_checkpoint", "atomic_save",
-                 "torch.save", "os.replace")
+                 "torch.save", "os.replace", "os.rename", "os.remove", "os.unlink", "shutil.move")
+PUBLICATION_TARGETS = ("torch.save", "os.replace", "os.rename", "os.remove", "os.unlink", "shutil.move")
 
 
 def _die_with_parent():
@@ -616,7 +626,8 @@ def read_xyz(path):
     return frames, problems
 
 
-_THERMO = re.compile(r"^\s*(\d+)((?:\s+-?\d+\.\d+\s+\S+\s+\S+\s+\S+\s+\|\|)+)\s*$")
+# (\S+ also for the temperature: a line printing nan/inf must be parsed and judged, not silently dropped)
+_THERMO = re.compile(r"^\s*(\d+)((?:\s+\S+\s+\S+\s+\S+\s+\S+\s+\|\|)+)\s*$")
 
 
 def read_thermo_lines(path):
@@ -668,20 +679,29 @@ def real_atoms(cfg, mol):
     return int(sum(1 for z in S[mol] if z > 0))
 
 
+def exceeds(x, bound):
+    """True when x is larger than bound OR not a number (a plain `x > bound` is False for NaN)."""
+    return not (x <= bound)
+
+
 def close(a, b, atol=1e-9, rtol=1e-9):
+    """Element-wise |a-b| <= atol + rtol*|b|.  NaN policy (explicit): a NaN/inf that the reference holds at the same
+    position with the same value counts as equal (the clause is equality with the reference run; the writer stores NaN
+    on purpose for undefined entries); a non-finite value anywhere else makes the comparison fail with ratio inf."""
     a = np.asarray(a, dtype=float)
     b = np.asarray(b, dtype=float)
     if a.shape != b.shape:
         return False, float("inf")
     if a.size == 0:
         return True, 0.0
-    both_nan = np.isnan(a) & np.isnan(b)
-    d = np.where(both_nan, 0.0, np.abs(a - b))
-    if np.isnan(d).any():
+    with np.errstate(invalid="ignore"):
+        same = (a == b) | (np.isnan(a) & np.isnan(b))       # identical entries, incl. identical NaN / inf
+        d = np.where(same, 0.0, np.abs(a - b))
+    if not np.isfinite(d).all():                            # a non-finite value the reference does not share
         return False, float("inf")
-    bound = atol + rtol * np.abs(b)
+    bound = atol + rtol * np.abs(np.where(np.isfinite(b), b, 0.0))
     r = float(np.max(d / bound))
-    return r <= 1.0, r
+    return bool(r <= 1.0), r
 
 
 def compare_stream_to_reference(name, st, ref_st, expected_steps, atol=1e-9, rtol=1e-9):
